@@ -190,6 +190,56 @@ def type_text(src, kind, name, manifest):
     return text
 
 
+def raw_item_text(src, spec, manifest):
+    """Verbatim text of an item (attributes included): 'impl HEADER', 'enum NAME', 'struct NAME',
+    'static NAME', 'fn NAME'."""
+    st = src.st
+    kind, _, name = spec.partition(' ')
+    if kind == 'static':
+        for i, t in enumerate(st):
+            if t.kind == 'ident' and t.text == 'static' and st[i + 1].text == name:
+                j = i
+                while st[j].text != ';':
+                    j += 1
+                text = src.text[t.start:st[j].end]
+                break
+        else:
+            raise ExtractError('static %s not found in %s' % (name, src.display))
+    else:
+        found = None
+        want = norm(spec)
+        for k, nm, first, bo, bc in _iter_items(st, 0, len(st)):
+            if k in ('impl', 'trait') and nm == want:
+                found = (first, bc)
+                break
+            if k == kind and nm == name:
+                found = (first, bc)
+                break
+        if not found:
+            raise ExtractError('%s not found in %s' % (spec, src.display))
+        first, bc = found
+        # include directly preceding attributes
+        a = first
+        while a - 1 >= 0 and st[a - 1].text == ']':
+            depth, j = 0, a - 1
+            while j >= 0:
+                if st[j].text == ']':
+                    depth += 1
+                elif st[j].text == '[':
+                    depth -= 1
+                    if depth == 0:
+                        break
+                j -= 1
+            if j - 1 >= 0 and st[j - 1].text == '#':
+                a = j - 1
+            else:
+                break
+        text = src.text[st[a].start:st[bc].end]
+    manifest.append({'op': 'extract-raw (verbatim)', 'file': src.display, 'item': spec,
+                     'sha256': hashlib.sha256(text.encode()).hexdigest()})
+    return text
+
+
 class FnText:
     """A function's token stream with a list of pending textual edits."""
 
